@@ -511,6 +511,28 @@ def r08_14(ctx: Ctx, rule: str = "R08.14") -> None:
             if isinstance(lst, list) and any(x is a for x in lst):
                 body = lst[lst.index(a):]
         ok = body is not None and any(isinstance(x, ast.Attribute) and x.attr == "crc" and isinstance(x.ctx, ast.Load) for st in body for x in ast.walk(st))
+        # shape of the hand-down: a loop over the folders with a position cursor that advances by EVERY folder's substream count; under `count == 1 and
+        # digestdefined and crc is not None` the entry at the cursor becomes (True, that CRC)
+        if ok:
+            loops = [l for st in body for l in ast.walk(st) if isinstance(l, ast.For)]
+            good = False
+            for l in loops:
+                steps = [x for x in l.body if isinstance(x, ast.AugAssign) and isinstance(x.op, ast.Add) and isinstance(x.target, ast.Name) and "num_unpackstreams_folders" in norm(x.value)]
+                if len(steps) != 1:
+                    continue
+                cur = steps[0].target.id
+                for cond in [c for c in l.body if isinstance(c, ast.If)]:
+                    atoms = {norm(v) for v in (cond.test.values if isinstance(cond.test, ast.BoolOp) and isinstance(cond.test.op, ast.And) else [cond.test])}
+                    need = [any(t.replace(" ", "").endswith("==1") and "num_unpackstreams_folders" in t for t in atoms),
+                            any(t.endswith(".digestdefined") for t in atoms), any(t.endswith(".crc is not None") for t in atoms)]
+                    sets_flag = any(isinstance(x, ast.Assign) and isinstance(x.targets[0], ast.Subscript) and norm(x.targets[0].value) == "self.digestsdefined" and norm(x.targets[0].slice) == cur
+                                    and isinstance(x.value, ast.Constant) and x.value.value is True for x in cond.body)
+                    sets_crc = any(isinstance(x, ast.Assign) and isinstance(x.targets[0], ast.Subscript) and norm(x.targets[0].value) == "self.digests" and norm(x.targets[0].slice) == cur
+                                   and norm(x.value).endswith(".crc") for x in cond.body)
+                    extra = len(atoms) > 3
+                    if all(need) and sets_flag and sets_crc and not extra and l.body.index(steps[0]) > l.body.index(cond):
+                        good = True
+            ok = good
         ctx.check(ok, rule, rd, a, "the no-kCRC fallback hands folder CRCs down to single-stream folders",
                   "when SubStreamsInfo carries no kCRC record every substream digest is set undefined and the folder CRCs are not consulted: a base archive protected by "
                   "folder CRCs lists crc32 None, and after an append (the writer takes digests only from this table) the CRC of every old member is gone",
@@ -556,6 +578,15 @@ def r08_17(ctx: Ctx, rule: str = "R08.17") -> None:
         args = [k.value for k in c.keywords if k.arg in gate] + [a for i, a in enumerate(c.args) if i + 1 < len(uw.params) and uw.params[i + 1] in gate]
         live = [a for a in args if not (isinstance(a, ast.Constant) and a.value in (False, None))]
         dep = any("digestdefined" in norm(q.expand_locals(sw, a)) or isinstance(a, ast.Constant) for a in live)
+        # ... a flag per folder that is TRUE whenever the folder has a CRC and does not hold exactly one substream
+        for a in live:
+            for v in ([a] if not isinstance(a, ast.Name) else q.assigned_values(sw, a.id)):
+                if isinstance(v, (ast.ListComp, ast.GeneratorExp)):
+                    fv = next((x.id for x in ast.walk(v.generators[0].target) if isinstance(x, ast.Name) and x.id not in ("i", "k", "idx", "n")), "folder")
+                    elt = v.elt.args[0] if isinstance(v.elt, ast.Call) and dotted(v.elt.func) == "bool" and v.elt.args else v.elt
+                    atoms = {f"{fv}.digestdefined", f"{fv}.crc is not None"} | {norm(x) for x in ast.walk(elt) if isinstance(x, ast.Compare) and isinstance(x.ops[0], ast.NotEq)
+                                                                                and isinstance(x.comparators[0], ast.Constant) and x.comparators[0].value == 1}
+                    dep = dep and shared.implied_by_all(elt, atoms) and not v.generators[0].ifs and any("!= 1" in t for t in atoms)
         ctx.check(bool(live) and dep, rule, sw, c, "the main-stream writer re-emits folder CRCs that are not carried by a substream digest",
                   "StreamsInfo.write calls `unpackinfo.write(file)` with the CRC record switched off: the CRC of a folder that holds several substreams (7-Zip writes one when "
                   "per-member CRCs are off) is dropped by the first append - a flipped bit in an old member raised CrcError before the append and is extracted silently after it",
